@@ -54,7 +54,9 @@ func (cc *CertChain) GetCommittee(ctx context.Context, instance uint64) (*gpbft.
 	if instance < cc.m.InitialInstance+cc.m.CommitteeLookback {
 		committeeEpoch = cc.m.BootstrapEpoch - cc.m.EC.Finality
 	} else {
-		lookbackIndex := instance - cc.m.CommitteeLookback - cc.m.InitialInstance + 1
+		// Same rule as the node (see gpbftInputs.GetCommittee): the committee of an
+		// instance comes from the certificate of instance - CommitteeLookback.
+		lookbackIndex := instance - cc.m.CommitteeLookback - cc.m.InitialInstance
 		if lookbackIndex >= uint64(len(cc.certificates)) {
 			return nil, fmt.Errorf("no prior finality certificate to get committee at instance %d", instance)
 		}
